@@ -10,7 +10,10 @@ open Asynkit Asynkit.Proto Asynkit.Eager
 
 def parseExc : String → Option Exc
   | "E1" => some excE1 | "E2" => some excE2 | "B1" => some excB1
-  | "CA" => some (.cancelled 0) | "RT" => some (.runtime 0) | _ => none
+  | "CA" => some (.cancelled 0) | "RT" => some (.runtime 0)
+  | "SD" => some (.cancelled 1)      -- Shutdown("disk full", 28): a CancelledError subclass instance
+  | "C2" => some (.cancelled 2)      -- CancelledError("r", 7)
+  | _ => none
 
 def parseKExc : String → Option KExc
   | "E1" => some (.other 1) | "E2" => some (.other 2) | "B1" => some (.other 3)
@@ -72,6 +75,7 @@ def parseEvents : List String → Option (List Ev)
 
 def showExc : Exc → String
   | .other 1 => "E1" | .other 2 => "E2" | .other 3 => "B1"
+  | .cancelled 1 => "SD" | .cancelled 2 => "C2"
   | .cancelled _ => "CA" | .runtime _ => "RT"
   | .typeErr => "OTHER:TypeError" | _ => "OTHER:?"
 
@@ -89,7 +93,7 @@ def showFut (x : Fut) : String :=
 def showOut : Option Out → String
   | none => "-"
   | some (.ret v) => s!"R{v}"
-  | some (.raise (.cancelled _)) => "CA"
+  | some (.raise (.cancelled n)) => showExc (.cancelled n)
   | some (.raise e) => s!"X{showExc e}"
   | some (.yield _) => "?"
 
